@@ -99,6 +99,7 @@ def ties(ctx):
     out.append(common.run_tie('ctl-grid', [h, 'grid', '0' if q else '1'], env=_ENV))
     out.append(common.run_tie('ctl-rand', [h, 'rand', str(ctx.seed), '3000' if q else '40000'], env=_ENV))
     out.append(common.run_tie('ctl-chain', [h, 'chain', str(ctx.seed), '2000' if q else '25000'], env=_ENV))
+    out.append(common.run_tie('ctl-reapp', [h, 'reapp', str(ctx.seed), '1500' if q else '20000'], env=_ENV))
     out.append(common.run_tie('ctl-honour', [h, 'honour', str(ctx.seed), '6000' if q else '80000'], env=_ENV))
     return out
 
@@ -136,6 +137,51 @@ def _fss_spec(frame_size, vd, fs):
     return new
 
 
+def _toc(toc, fs):
+    """(mode, bandwidth, channels, samples per frame) of a TOC byte (RFC 6716 table 2)."""
+    if toc & 0x80:
+        mode, bw, spf = 1002, (1101, 1103, 1104, 1105)[(toc >> 5) & 3], (fs // 400) << ((toc >> 3) & 3)
+    elif (toc & 0x60) == 0x60:
+        mode, bw, spf = 1001, 1105 if toc & 0x10 else 1104, fs // 50 if toc & 8 else fs // 100
+    else:
+        mode, bw = 1000, 1101 + ((toc >> 5) & 3)
+        spf = (fs // 100, fs // 50, fs // 25, 3 * fs // 50)[(toc >> 3) & 3]
+    return mode, bw, 2 if toc & 4 else 1, spf
+
+
+def _packet_violation(fs, nch, prevcols, fsz, ret, toc, payload, nfr, since_mono, bw_stable):
+    """honour_* evaluated on one packet of the implementation against the settings the implementation itself
+    reported (getters + hidden fields) right before the call.  None = honoured."""
+    H = len(ENC_GET)
+    app, force, maxbw, vd = int(prevcols[0]), int(prevcols[2]), int(prevcols[3]), int(prevcols[17])
+    userbw, lfe = int(prevcols[H + 1]), int(prevcols[H + 3])
+    fsel = _fss_spec(fsz, vd, fs)
+    if fsel <= 0 or ret <= 0:
+        return None
+    mode, bw, ch, spf = _toc(toc, fs)
+    if nfr * spf != fsel:
+        return 'duration: %d frame(s) of %d samples for a request of %d' % (nfr, spf, fsel)
+    if payload == 0:
+        return None                      # DTX / TOC-only packet: no coded audio
+    if (app == 2051 or fsel < fs // 100) and mode != 1002:
+        return ('the low-delay application' if app == 2051 else 'a frame below 10 ms') + \
+               ' must use the MDCT layer only, packet is %s (toc 0x%02x)' % ('LP-only' if mode == 1000 else 'hybrid', toc)
+    if nch == 1 and ch != 1:
+        return 'stereo packet from a mono encoder'
+    if nch == 2 and force == 2 and ch != 2:
+        return 'forced stereo, packet is mono'
+    if nch == 2 and force == 1 and since_mono >= 3 and ch != 1:
+        return 'forced mono for %d packets, packet is still stereo' % since_mono
+    if mode != 1000 or bw_stable:
+        nyq = 1101 if fs <= 8000 else 1102 if fs <= 12000 else 1103 if fs <= 16000 else 1104 if fs <= 24000 else 1105
+        lim = min(userbw if userbw != -1000 else maxbw, nyq)
+        if mode == 1002 and lim == 1102:
+            lim = 1103
+        if bw > lim and not lfe:
+            return 'bandwidth %d above the limit %d (forced %d, max %d, Fs %d)' % (bw, lim, userbw, maxbw, fs)
+    return None
+
+
 def _split_snap(kind, snap):
     """-> (object-level getter columns, [per-stream column lists])"""
     parts = snap.split(';')
@@ -159,12 +205,33 @@ def _history_violations(inp, outp):
     getl = DEC_GET if kind in ('dec', 'msdec') else ENC_GET
     pair = DEC_PAIR if kind in ('dec', 'msdec') else ENC_PAIR
     prev = None                        # (every history starts with a getter: its snapshot is the initial state)
+    since_mono, bw_stable = 0, True
     for i, op in enumerate(ops):
         a = ans[i]
         if '/' not in a:
             return res
         ret, snap = a.split('/', 1)
         prefix = ' '.join(hdr + ops[:i + 1])
+        if kind == 'enc' and prev is not None:
+            pc, H = prev.split(','), len(ENC_GET)
+            if op == 'r':
+                bw_stable = True
+            if op[0] == 'E':
+                f = op[1:].split(':')
+                if len(f) == 7:
+                    why = _packet_violation(int(hdr[2]), nch, pc, int(f[0]), int(f[2]), int(f[4]), int(f[5]), int(f[6]),
+                                            since_mono, bw_stable)
+                    if why:
+                        res.append(('ctl-honour-history', prefix, 'every packet honours the settings in force', 'toc=%s' % f[4],
+                                    'a packet produced by opus_encode contradicts the settings the encoder reported before '
+                                    'the call: ' + why))
+                    since_mono = since_mono + 1 if pc[2] == '1' else 0
+            else:
+                nc = snap.split(',')
+                if pc[2] != '1' and nc[2] == '1':
+                    since_mono = 0
+                if (pc[3], pc[H + 1]) != (nc[3], nc[H + 1]) and pc[H + 4] == '0':
+                    bw_stable = False      # bandwidth settings changed mid-stream: SILK's internal rate follows with a delay
         if op[0] != 'E' and op[0] != 'D' and not ret.startswith('OK') and prev is not None and snap != prev:
             res.append(('ctl-reject', prefix, 'state unchanged after %s' % ret, snap,
                         'a ctl call that returned %s changed the observable state (getters / hidden fields)' % ret))
@@ -301,6 +368,8 @@ def search(ctx):
     samples = []
     seen = set()
     runs = [[h, 'grid', '0' if ctx.quick else '1'], [h, 'rand', str(ctx.seed + 1000), '2000' if ctx.quick else '20000'],
+            [h, 'reapp', str(ctx.seed + 1000), '1500' if ctx.quick else '20000'],
+            [h, 'chain', str(ctx.seed + 1000), '1000' if ctx.quick else '10000'],
             [h, 'create', '0' if ctx.quick else '1']]
     for cmd in runs:
         for inp, outp in _run_lines(cmd):
